@@ -176,8 +176,9 @@ def compile (isFn : Nat → Bool) (c : Ctx) : Expr → G (List Instr × Bool)
   | .nilLit => pure ([.push .nil], c.tail)
   | .sym x => pure ([.envToStack x], c.tail)
   | .arr es => do
-    let (code, t) ← compileAll isFn c es
-    pure (code ++ [.callArr es.length], t)
+    -- `GenerateArray` (fix C09-01): the elements are compiled with `Tail` off, then it is restored
+    let (code, _) ← compileAll isFn { c with tail := false } es
+    pure (code ++ [.callArr es.length], c.tail)
   | .call (.sym h) args =>
     if c.tail && h == c.funcname then do
       -- self tail call: arguments inline, re-enter at instruction 0
@@ -207,8 +208,9 @@ def compile (isFn : Nat → Bool) (c : Ctx) : Expr → G (List Instr × Bool)
     pure (asmSC true cs, c.tail)
   | .let_ seq bs body => do
     let c1 := { c with scopes := c.scopes + 1 }
-    let (rhs, t) ← compileBinds isFn c1 seq bs
-    let (b, t) ← compileBegin isFn { c1 with tail := t } body
+    -- `GenerateLet` (fix C09-01): initialisers with `Tail` off, the body with the caller's flag
+    let (rhs, _) ← compileBinds isFn { c1 with tail := false } seq bs
+    let (b, t) ← compileBegin isFn c1 body
     let binds := if seq then [] else (bs.map (fun p => Instr.popStackPutEnv p.1)).reverse
     pure ([.addScope] ++ rhs ++ binds ++ b ++ [.removeScope], t)
   | .newScope es =>
@@ -262,12 +264,12 @@ def compile (isFn : Nat → Bool) (c : Ctx) : Expr → G (List Instr × Bool)
     finishTemplate t b
     pure ([.createClosure t, .popStackPutEnv name, .push .nil], c.tail)
   | .assign l r => do
-    let (a, _) ← compile isFn c l
+    let (a, _) ← compile isFn { c with tail := false } l
     let (b, _) ← compile isFn { c with tail := false } r
     pure (a ++ b ++ [.assign], false)
   | .bad _ => throw ()
 
-/-- `GenerateAll` (array literals): `gen.Tail` threads through. -/
+/-- `GenerateAll` (array literals): `gen.Tail` threads through (it starts cleared). -/
 def compileAll (isFn : Nat → Bool) (c : Ctx) : List Expr → G (List Instr × Bool)
   | [] => pure ([], c.tail)
   | e :: es => do
@@ -313,7 +315,7 @@ def compileSC (isFn : Nat → Bool) (c : Ctx) : List Expr → G (List (List Inst
     let (a, _) ← compile isFn { c with tail := false } e
     pure (a :: rest)
 
-/-- bindings of `GenerateLet`: `gen.Tail` threads through the initialisers. -/
+/-- bindings of `GenerateLet`: `gen.Tail` threads through the initialisers (it starts cleared). -/
 def compileBinds (isFn : Nat → Bool) (c : Ctx) (seq : Bool) : List (String × Expr) → G (List Instr × Bool)
   | [] => pure ([], c.tail)
   | (x, e) :: bs => do
